@@ -216,7 +216,7 @@ impl FileSpec {
         !self.basename.is_empty()
     }
     pub(crate) fn has_discriminant(&self) -> bool {
-        self.o_discriminant.is_some()
+        self.o_discriminant.as_ref().is_some_and(|d| !d.is_empty())
     }
     pub(crate) fn uses_timestamp(&self) -> bool {
         matches!(self.timestamp_cfg, TimestampCfg::Yes)
@@ -248,8 +248,10 @@ impl FileSpec {
         fixed_name_part.reserve(50);
 
         if let Some(discriminant) = &self.o_discriminant {
-            append_underscore_if_not_empty(&mut fixed_name_part);
-            fixed_name_part.push_str(discriminant);
+            if !discriminant.is_empty() {
+                append_underscore_if_not_empty(&mut fixed_name_part);
+                fixed_name_part.push_str(discriminant);
+            }
         }
         if let Some(timestamp) = &self.timestamp_cfg.get_timestamp() {
             append_underscore_if_not_empty(&mut fixed_name_part);
